@@ -297,7 +297,7 @@ instance (p : Nat) (r : FRec) : Decidable (RecWF p r) := by unfold RecWF; infer_
 
 /-- a transaction that `tpc_vote`/`tpc_finish` can have written at offset `pos` -/
 def TxnWF (pos : Nat) (t : FTxn) : Prop :=
-  t.tid < 2 ^ 64 - 1 ∧ t.status < 256 ∧ t.status ≠ stCheckpoint ∧ t.status ≠ stUndone ∧
+  t.tid < 2 ^ 64 - 1 ∧ t.status < 128 ∧ t.status ≠ stCheckpoint ∧ t.status ≠ stUndone ∧
   t.user.length < 2 ^ 16 ∧ t.desc.length < 2 ^ 16 ∧ t.ext.length < 2 ^ 16 ∧
   pos + t.tlen < 2 ^ 64 ∧ ∀ r ∈ t.recs, RecWF pos r
 
